@@ -106,8 +106,10 @@ def check_string(s, embed, fails, counters):
                     except Exception:
                         srcs = []
                     for src_ in srcs:
-                        if '\x00' in src_:
-                            continue        # a NUL is refused by ast.parse whatever surrounds it (also inside a comment)
+                        if '\x00' in src_ or '\r' in src_:
+                            # a NUL is refused by ast.parse whatever surrounds it (also inside a comment); a lone CR ends a line
+                            # for the interpreter but not in the parser's line model (line feeds only, F30): not judged
+                            continue
                         try:
                             import ast
                             ast.parse(src_)
